@@ -121,6 +121,7 @@ func (l Letter) String() string {
 
 // Step is one harness operation.
 type Step struct {
+	// P / T: PAUSE / TEARDOWN issued without the preceding delivery barrier (report-only part)
 	Op string  `json:"op"`          // w write | s set sequence number | b delivery barrier | j join | p pause | r re-play | t teardown | c abrupt close
 	L  *Letter `json:"l,omitempty"` // w
 	R  int     `json:"r"`           // reader index for events
@@ -136,7 +137,7 @@ func (s Step) String() string {
 	case "s":
 		return fmt.Sprintf("seq:=%d", s.V)
 	}
-	return fmt.Sprintf("%s%d", map[string]string{"j": "join", "p": "pause", "r": "replay", "t": "teardown", "c": "close"}[s.Op], s.R)
+	return fmt.Sprintf("%s%d", map[string]string{"j": "join", "p": "pause", "r": "replay", "t": "teardown", "c": "close", "P": "pause-undrained", "T": "teardown-undrained"}[s.Op], s.R)
 }
 
 // Case is one execution: a fresh world, the steps, a final delivery barrier, the oracle.
@@ -281,6 +282,10 @@ type Result struct {
 	TapSkipped  string   `json:"tap_skipped,omitempty"`
 	SSRCChecked int      `json:"ssrc_checked"`
 	Segments    int      `json:"segments"`
+	// UndrainedLost counts packets accepted by WritePacketRTP before an immediately following PAUSE/TEARDOWN
+	// (no barrier) that the reader never got; UndrainedTotal is how many were at stake. Report only.
+	UndrainedLost  int `json:"undrained_lost"`
+	UndrainedTotal int `json:"undrained_total"`
 	// TunnelRetries counts HTTP-tunnel handshakes repeated because of the GET/POST registration race.
 	TunnelRetries int `json:"http_tunnel_handshake_retries"`
 }
@@ -778,6 +783,9 @@ func (w *world) barrier(wait []*reader) int {
 	}
 	top := last[len(last)-1]
 	for _, r := range wait {
+		if r.timedOut {
+			continue // a sentinel already failed to arrive: FIFO transport, nothing later can overtake it
+		}
 		ok := r.waitFor(func() bool {
 			for _, li := range last {
 				if w.written[li].Err == "" && !r.hasTag(tagMagic|uint64(li)) {
@@ -835,13 +843,17 @@ func (w *world) event(st Step) error {
 				r.sess = e.Session
 			}
 		}
-	case "p":
+	case "p", "P":
 		if r.state != "playing" {
 			return fmt.Errorf("harness: pause of reader %d in state %s", r.id, r.state)
 		}
-		w.barrier([]*reader{r})
 		iv := r.ivs[len(r.ivs)-1]
-		iv.To, iv.Leave = len(w.written), "pause"
+		if st.Op == "p" {
+			w.barrier([]*reader{r})
+			iv.To, iv.Leave = len(w.written), "pause"
+		} else {
+			iv.To, iv.Leave = len(w.written), "pause-undrained"
+		}
 		if err := w.call("pause", func() error { _, err := r.c.Pause(); return err }); err != nil {
 			return fmt.Errorf("pause: %w", err)
 		}
@@ -855,7 +867,7 @@ func (w *world) event(st Step) error {
 		}
 		r.state = "playing"
 		r.ivs = append(r.ivs, &interval{From: len(w.written), To: -1, Confirmed: -1, Kind: "re-play"})
-	case "t", "c":
+	case "t", "c", "T":
 		if r.state != "playing" && r.state != "paused" {
 			return fmt.Errorf("harness: %s of reader %d in state %s", st.Op, r.id, r.state)
 		}
@@ -864,7 +876,7 @@ func (w *world) event(st Step) error {
 				w.barrier([]*reader{r})
 			}
 			iv := r.ivs[len(r.ivs)-1]
-			iv.To, iv.Leave = len(w.written), map[string]string{"t": "teardown", "c": "close"}[st.Op]
+			iv.To, iv.Leave = len(w.written), map[string]string{"t": "teardown", "c": "close", "T": "teardown-undrained"}[st.Op]
 		}
 		wasPlaying := r.state == "playing"
 		if st.Op == "c" {
@@ -883,7 +895,7 @@ func (w *world) event(st Step) error {
 		// the server must have seen the end of the session before the history goes on (TEARDOWN, or the loss of
 		// the only connection of a TCP-based / non-streaming session); a UDP session that was streaming when its
 		// control connection vanished lives until its timeout, which this history does not reach
-		if r.sess != nil && (st.Op == "t" || reliable(r.tr) || !wasPlaying) {
+		if r.sess != nil && (st.Op != "c" || reliable(r.tr) || !wasPlaying) {
 			if !sysx.WaitFor(func() bool { return w.sessionClosed(r.sess) }) {
 				return fmt.Errorf("harness: session of reader %d not closed after %s", r.id, st.Op)
 			}
